@@ -195,6 +195,57 @@ pub fn judge(c: &Case, rec: &mut Rec) -> Verdict {
     Verdict::Pass
 }
 
+/// the same layouts through the public libfs API (Linux backend): copy_file and copy_sparse
+fn judge_libfs(c: &Case, rec: &mut Rec) -> Verdict {
+    let sb = match Sandbox::new() {
+        Ok(s) => s,
+        Err(e) => return Verdict::Inconclusive(format!("sandbox: {e}")),
+    };
+    let (content, min_hole) = content_of(c);
+    let nsegs = content.segs.iter().filter(|s| matches!(s, Seg::Data(..))).count();
+    let mut ents = vec![Ent::file(b"src", content.clone())];
+    if c.prior_mib > 0 {
+        ents.push(Ent::file(b"dst", Content { segs: vec![Seg::Data(c.prior_mib as u64 * MIB, 77)], sync: true }));
+    }
+    if let Err(e) = materialise(&sb.root, &ents) {
+        return Verdict::Inconclusive(format!("materialise: {e}"));
+    }
+    let op = if c.parblock { "copy_file" } else { "sparse" };
+    let mut spec = RunSpec::xcp(vec![b"fscopy".to_vec(), op.as_bytes().to_vec(), b"src".to_vec(), b"dst".to_vec()], &sb.root, &sb.out);
+    spec.bin = std::path::PathBuf::from(PROBE_BIN);
+    spec.timeout = std::time::Duration::from_secs(120);
+    let out = run_plain(&spec);
+    rec.eval(1);
+    if out.timed_out {
+        return Verdict::Inconclusive("watchdog".into());
+    }
+    rec.class(format!("libfs|{}|segs={}|exit={}", op, match nsegs { 0 => "0", 1 => "1", 2..=32 => "2-32", _ => ">32" }, if out.ok() { "0" } else { "!0" }));
+    if !out.ok() {
+        return Verdict::Pass;
+    }
+    rec.nontrivial(case_hash(&(c, "libfs")));
+    let sm = match stat_one(&sb.abs(b"src"), true) {
+        Ok(m) => m,
+        Err(e) => return Verdict::Inconclusive(format!("stat: {e}")),
+    };
+    let dm = match stat_one(&sb.abs(b"dst"), true) {
+        Ok(m) => m,
+        Err(_) => return Verdict::faild(format!("C11|libfs|{}|missing", op), "Ok but no destination".to_string(), json!({"op": op})),
+    };
+    let slack = std::cmp::max(64 * 1024, 8 * 1024 * nsegs as u64);
+    if dm.size != sm.size || dm.hash != sm.hash {
+        return Verdict::faild(format!("C11|libfs|{}|content", op), format!("libfs::{} returned Ok but the copy differs", op), json!({"op": op, "segments": content.segs.iter().take(8).collect::<Vec<_>>()}));
+    }
+    if dm.blocks * 512 > sm.blocks * 512 + slack {
+        return Verdict::faild(
+            format!("C11|libfs|{}|holes-materialised", op),
+            format!("libfs::{}: destination allocates {} bytes, source {} (+slack {}); smallest hole {}", op, dm.blocks * 512, sm.blocks * 512, slack, min_hole),
+            json!({"op": op, "segments": content.segs.iter().take(8).collect::<Vec<_>>()}),
+        );
+    }
+    Verdict::Pass
+}
+
 impl Check for C11 {
     fn id(&self) -> &'static str {
         "C11"
@@ -206,7 +257,7 @@ impl Check for C11 {
         vec!["sandbox filesystem supports SEEK_HOLE and FIEMAP (probed at start; exit 2 otherwise)".into()]
     }
     fn needs(&self) -> Needs {
-        Needs { xcp: true, probe: false, fallback: false }
+        Needs { xcp: true, probe: true, fallback: false }
     }
     fn run_shard(&self, ctx: &Ctx, rec: &mut Rec) {
         if let Err(e) = capability_probe() {
@@ -219,9 +270,11 @@ impl Check for C11 {
             Tier::Thorough => 20000,
         };
         prop_loop(ctx, rec, "gen", strategy(), ctx.share(total), judge);
+        prop_loop(ctx, rec, "libfs", strategy(), ctx.share(total / 3), judge_libfs);
     }
-    fn replay(&self, _ctx: &Ctx, _sub: &str, case: &Value) -> Verdict {
+    fn replay(&self, _ctx: &Ctx, sub: &str, case: &Value) -> Verdict {
         match serde_json::from_value::<Case>(case.clone()) {
+            Ok(c) if sub == "libfs" => judge_libfs(&c, &mut Rec::default()),
             Ok(c) => judge(&c, &mut Rec::default()),
             Err(e) => Verdict::Inconclusive(format!("bad case: {e}")),
         }
@@ -233,6 +286,6 @@ impl Check for C11 {
         }
     }
     fn required_classes(&self, _tier: Tier) -> Vec<String> {
-        ["segs=0", "segs=1|", "segs=2-32", "segs=>32", "|lead|", "|trail|", "|inner|", "block<segment", "block>hole", "prior-allocated", "unaligned", "parblock|", "parfile|"].iter().map(|s| s.to_string()).collect()
+        ["segs=0", "segs=1|", "segs=2-32", "segs=>32", "|lead|", "|trail|", "|inner|", "block<segment", "block>hole", "prior-allocated", "unaligned", "parblock|", "parfile|", "libfs|copy_file", "libfs|sparse"].iter().map(|s| s.to_string()).collect()
     }
 }
